@@ -28,7 +28,7 @@ REQUIRED = [
     "CifModel.Model.Parser.elemsV", "CifModel.C01_render_nested_hyps", "CifModel.C01_render_nested_instance",
 ]
 GEN = ["CharClass", "ErrCodes"]
-FAMILIES = ["lex", "parsedoc"]
+FAMILIES = ["lex", "parsedoc", "align"]   # align: well-formed constructs on every refill / compaction / doubling point of the buffers (shared with C08)
 TRUSTED_BASE = [
     "Lean 4.33.0 kernel; axioms used: propext, Classical.choice, Quot.sound only (audited per theorem); decide +kernel for the "
     "160-entry class tables, the metaclass table and the 65536 code units of mask_link",
